@@ -171,7 +171,13 @@ def judge(out, tag, R_full, recs, end, exc, L, ctx, allow_length_on=None,
     if cut is not None:
         info['cut'] = cut
 
-    if end in ('cap', 'hang'):
+    if end == 'hang':
+        # the per-scenario CPU allowance ran out inside this read: that is
+        # about the size of the scenario, not a verdict on the reader
+        from dsim.world import SimHang
+        raise SimHang()
+
+    if end == 'cap':
         out.violate('C07.no-termination', tag, info)
         return 'hang'
 
@@ -384,6 +390,13 @@ def execute(scn, L):
                                     + 1))
 
             ks = sorted(ks)
+
+            # bounded work per file: about 25 MB read in total
+            lim = max(20, 25000000 // max(1, len(intact)))
+
+            if len(ks) > lim:
+                ks = ks[::-(-len(ks) // lim)]
+
             out.case_weight = len([k for k in ks if 0 < k < len(intact)])
             out.probe('large_file_cut_grid')
         else:
